@@ -23,6 +23,7 @@ class ConnectionHandler(Client):
         self.stdout = stdout
         self.buffer = Buffer()
         self.router = router
+        self.sender_lock = asyncio.Lock()
         if self.router:
             self.router.register_client(self)
 
@@ -61,8 +62,11 @@ class ConnectionHandler(Client):
         return await self.stdin.readline()
 
     async def _write(self, data: str):
-        await self.stdout.write(data)
-        await self.stdout.flush()
+        # one task is started per message and the writes run in a thread
+        # pool: without the lock they reach stdout in completion order
+        async with self.sender_lock:
+            await self.stdout.write(data)
+            await self.stdout.flush()
 
 
 class TTY:
